@@ -4,6 +4,7 @@ import EqsigVerif.Lemmas.Np
 import EqsigVerif.Lemmas.Im.Velo
 import EqsigVerif.Lemmas.Im.Series
 import EqsigVerif.Lemmas.Im.CavDp
+import EqsigVerif.Lemmas.Im.AriasReal
 /-!
 # C09 — cumulative intensity measures: definition, monotonicity and scaling laws
 
@@ -163,6 +164,27 @@ example : intAbsAcc (1/2 : ℚ) ([1, -2] ++ List.replicate 2 0) = [1/2, 3/2, 3/2
 sample to the first appended zero adds `dt·|a[-1]|/2`. -/
 example : cav (1/2 : ℚ) ([1, -2] ++ List.replicate 2 0) = [0, 3/4, 5/4, 5/4] ∧ cav (1/2 : ℚ) [1, -2] = [0, 3/4] := by
   decide +kernel
+
+/-- C09.d also holds for unit kinetic energy (velocity is constant once the record has ended at zero) -/
+theorem zero_padding_unit_kinetic_energy (dt : α) (a : List α) (m : Nat) (h : a.getLast? = some 0) :
+    ∃ s f, unitKineticEnergy dt a = .ok s ∧ s.getLast? = some f ∧
+      unitKineticEnergy dt (a ++ List.replicate m 0) = .ok (s ++ List.replicate m f) :=
+  unitKineticEnergy_pad dt a m h
+
+example : unitKineticEnergy (1/2 : ℚ) ([1, -2, 3, -8, 0] ++ List.replicate 2 0) =
+    (unitKineticEnergy (1/2 : ℚ) [1, -2, 3, -8, 0]).map (· ++ List.replicate 2 (171/32)) := by decide +kernel
+
+/-! ## the Arias series with its real constant `π/(2·9.81)` -/
+
+/-- C09.a/b at `ℝ` for `calc_arias_intensity = π/(2·9.81) · cumulative_trapezoid(a², dt)`: length,
+monotonicity (`dt ≥ 0`) and final value `π/(2·9.81)·trapz(a²)` -/
+theorem arias_real (dt : ℝ) (hdt : 0 ≤ dt) (a : List ℝ) (h : a ≠ []) :
+    (arias kArias dt a).length = a.length ∧ (arias kArias dt a).Pairwise (· ≤ ·) ∧
+    (arias kArias dt a).getLast? = some (Real.pi / (2 * 9.81) * trapz dt (Np.sq a)) :=
+  ⟨(series_length kArias dt a).1, (series_monotone kArias dt kArias_pos.le hdt a).1,
+   (final_values kArias dt a h).1⟩
+
+example : (0 : ℝ) ≤ 1/2 ∧ ([1, -2, 3] : List ℝ) ≠ [] := ⟨by norm_num, by simp⟩
 
 /-! ## C09.e standardised CAV (`calc_cav_dp`)
 
